@@ -17,12 +17,16 @@ CHECKS = {
  "C10": ("geosim", "exploration", "partial claim: every volume the library computes during simulated sampling and the root volume against closed forms/composition rules; density->count exactly for closed-form primitives, in expectation (pooled z-test) for rejection-based shapes; set_volume/flag histories", TECH + "volume monitor on simulated density sampling + count oracles over owned draw streams"),
  "C07": ("trainsim", "exploration", "refinement of Lightning-driven training (real Solver under a real Trainer, trainer options = the schedule) against the reference loop R-loop over training histories: per-step learnable state, lr, draw counts, call schedule, validation purity", TECH + "two-world refinement check under an owned RNG; the simulator chooses Lightning's validation/sanity/logging schedule"),
  "C19": ("trainsim", "fault_enumeration", "per configuration every single crash point (step x hook) is enumerated: crash, only files survive, rebuild from scratch with another init seed, resume to N, bitwise comparison with the uninterrupted run; plus multi-crash schedules and weight-file load/identity checks", TECH + "crash-point enumeration with restart from durable state only, bitwise refinement against the uninterrupted run"),
+ "C13": ("objsim", "exploration", "degenerate use (no draws, no faults): interleaved operation histories over several holders of possibly shared state (wrapper, re-wrap, partial evaluations, deep copies) judged against the R-holders reference model; isolation and name-based routing", TECH + "operation histories over shared-state holders against a reference model (history half of the technique only; no fault applies)"),
+ "C16": ("loadersim", "exploration", "one pass over a loader as a history of batches under simulator-chosen shuffle permutations; unique tags make every row attributable: pairing, batch size, coverage, full-data-set aggregation", TECH + "owned shuffle permutations (identity/reverse/rotate/swap faults) + tagged-data conservation/pairing oracle"),
  "C15": ("samplersim", "exploration", "seeded call histories on static samplers (any interleaving of sample/next/len/re-make_static) judged by the R-static age-set model with freshness observed at the seam; adaptive samplers with generated loss vectors judged row by row against R-adaptive using the fresh draw and the uniform numbers observed at the seam", TECH + "call histories under an owned RNG, state-machine reference models"),
  "C18": ("geosim", "exploration", "partial claim: every point produced in simulated sampling lies in bounding_box(params); tightness for primitives; NormalizationLayer maps samples into [-1,1]^d", TECH + "enclosure monitor riding on simulated sampling (edge draws reach the extreme points)"),
 }
 ENG = {
  "geosim": ("simverif/geosim.py", "seeded simulation of sampling under an owned draw stream (SimRNG) with value faults and spurious rejections; monitors on membership/volume/box; float64 reference geometry R-geo as oracle"),
  "trainsim": ("simverif/trainsim.py", "real Solver + real pl.Trainer as world A with simulator-chosen trainer options, crash callbacks and private tmpfs directory; R-loop reference optimisation loop as world B"),
+ "objsim": ("simverif/objsim.py", "interleaved operations on holders of shared UserFunction state; R-holders model"),
+ "loadersim": ("simverif/loadersim.py", "tagged data sets, one epoch as a batch history, simulator-owned shuffle permutations"),
  "samplersim": ("simverif/samplersim.py", "operation histories on sampler expressions / static / adaptive samplers with recording proxies; R-count, R-static, R-adaptive reference models"),
 }
 import os, importlib
